@@ -1721,6 +1721,14 @@ impl TransactionalMemory {
                     }
                 }
                 acc.allocated = Some(allocated);
+                for (r, allocator) in allocators.region_allocators.iter().enumerate() {
+                    acc.region_tracker.push((
+                        allocator.highest_free_order(),
+                        allocators
+                            .region_tracker
+                            .verif_marked_full(u32::try_from(r).unwrap()),
+                    ));
+                }
             }
         }
         let unpersisted = self.unpersisted.lock().unwrap();
